@@ -526,10 +526,21 @@ fn blocker_histories(ctx: &mut Ctx) {
             let nops = 10 + r.below(30);
             let mut reqs: Vec<gen::Req> = (0..4).map(|_| gen_request(&mut r, &all)).collect();
             let mut queries_after_change = 0;
-            for _ in 0..nops {
-                match r.below(12) {
+            let mut forced: Vec<usize> = vec![];
+            let mut remaining = nops;
+            while remaining > 0 || !forced.is_empty() {
+                let op = if forced.is_empty() {
+                    remaining -= 1;
+                    r.below(13)
+                } else {
+                    0
+                };
+                match op {
                     0..=4 => {
-                        let q = r.pick(&reqs);
+                        let q = match forced.pop() {
+                            Some(i) => reqs[i].clone(),
+                            None => r.pick(&reqs).clone(),
+                        };
                         if let Ok(rq) = Request::new(&q.url, &q.source, q.rtype) {
                             history.push(format!("check({}, {}, {})", q.url, q.source, q.rtype));
                             let got = blocker_answer(&b, &storage, &rq);
@@ -576,6 +587,29 @@ fn blocker_histories(ctx: &mut Ctx) {
                         history.push("optimize()".into());
                         b.optimize();
                         h.state_changes += 1;
+                    }
+                    12 => {
+                        // optimise, grow, optimise again (already fused rules meet new neighbours),
+                        // then ask every request
+                        history.push("optimize()".into());
+                        b.optimize();
+                        for _ in 0..1 + r.below(4) {
+                            if let Some(line) = pending.pop() {
+                                let (mut nf, _) = parse_filters([&line], true, ParseOptions::default());
+                                if let Some(f) = nf.pop() {
+                                    let res = b.add_filter(f);
+                                    history.push(format!("add_filter({}) -> {:?}", line, res));
+                                    if res.is_ok() {
+                                        rules.push(line.clone());
+                                    }
+                                    reqs.push(gen_request(&mut r, &[line]));
+                                }
+                            }
+                        }
+                        history.push("optimize()".into());
+                        b.optimize();
+                        h.state_changes += 1;
+                        forced = (0..reqs.len()).collect();
                     }
                     8 => {
                         let t = pick_tags(&mut r);
